@@ -57,6 +57,17 @@ class DirectCollocation(SamplingMethod):
         self.degree = degree
         self.tau = collocation_points(degree, scheme)
         [self.C, self.D, self.B] = collocation_coeff(self.tau)
+        # Quadrature weights: integrate the Lagrange polynomials through the collocation points themselves.
+        # casadi's B drops the weight of the extra node tau=0, which only vanishes for
+        # Legendre points and for Radau points of degree>=2 (degree=1: constants integrated to 1/2)
+        B = []
+        for j in range(degree):
+            p = np.poly1d([1])
+            for r in range(degree):
+                if r != j:
+                    p *= np.poly1d([1, -self.tau[r]]) / (self.tau[j]-self.tau[r])
+            B.append(np.polyint(p)(1.0))
+        self.B = DM(B)
         self.clean()
 
     def clean(self):
